@@ -5,7 +5,7 @@
    Conventions of the model (Model/C04_Dens.v): a parameter is a list of length 1 (scalar, broadcast by
    `bc n`) or n; `fixed` selects the repaired (true) or the unrepaired (false) formula of the defects
    that have a fix proposal; lnGamma enters through its value G = Gamma(shape) > 0. *)
-From CV Require Import Base.Tac Base.Cmp Model.C04_Dens Model.C04_Cdf Proofs.C04_Cdf Proofs.C04_Dens Proofs.C04_Gauss Proofs.C04_Norm Proofs.C04_More Proofs.C04_Sym.
+From CV Require Import Base.Tac Base.Cmp Model.C04_Dens Model.C04_Cdf Proofs.C04_Cdf Proofs.C04_Lim Proofs.C04_Dens Proofs.C04_Gauss Proofs.C04_Norm Proofs.C04_More Proofs.C04_Sym.
 From Coq Require Import QArith Reals Lra.
 From Coquelicot Require Import Coquelicot.
 Local Open Scope R_scope.
@@ -151,6 +151,11 @@ Theorem C04_gamma_int_pdf_documented : forall (k : nat) (r x : R), 0 < r -> 0 < 
   gamma_int_pdf k r x = gamma_pdf1 (INR (fact k)) (INR (S k)) r x.
 Proof. exact gamma_int_pdf_doc. Qed.
 Print Assumptions C04_gamma_int_pdf_documented.
+
+(* ... and the density integrates to one: the cdf tends to 1 (every integer shape, every rate) *)
+Theorem C04_gamma_int_normalised : forall (k : nat) (r : R), 0 < r -> is_lim (gamma_int_cdf1 k r) p_infty 1.
+Proof. exact gamma_int_normalised. Qed.
+Print Assumptions C04_gamma_int_normalised.
 
 (* PARTIAL: d/dx cdf = pdf is proved for Normal, Cauchy and Gamma with integer shape.  Not proved: Beta and InverseGamma
    (their cdfs are in the model as integrals for integer shapes and enclosed per case, but no theorem), Gamma / Beta /
@@ -352,7 +357,8 @@ Print Assumptions C04_gmrf_rank_refuted.
 (* PARTIAL: "the density integrates to one over the support" is proved for Uniform (per coordinate), Laplace
    (mass of [mu-T, mu+T] is 1 - exp(-T/b), limit 1) and Cauchy (mass of [l-T, l+T] is (2/pi) atan(T/s), limit 1),
    each per coordinate (the multi-dimensional densities are products of these factors; Fubini is not formalised).
-   NOT proved: Normal/Gaussian, Gamma, InverseGamma, Beta, Lognormal (no Gaussian integral / Gamma-function theory in
+   Gamma with INTEGER shape is proved in full (C04_gamma_int_normalised).
+   NOT proved: Normal/Gaussian, Gamma with non-integer shape, InverseGamma, Beta, Lognormal (no Gaussian integral / Gamma-function theory in
    the installed libraries), and SmoothedLaplace (whose documented density is in fact not normalised for beta > 0);
    for those the theorems above say "equals the documented formula" and the harness's oracle compares with
    independent references. *)
